@@ -154,6 +154,9 @@ def run(ctx, rep):
     rep.rule("R7.9", "a supplied maxfev/maxiter is not overwritten by the completion of the options (see C19 R19.8)")
     from . import c19
     c19.r198(ctx, Renamed(rep, to="R7.9"), ctx.func(c19.OPT_FUNC), ctx.func(c19.CST_FUNC))
+    rep.rule("R7.10", "the budget statuses rest on a counter that counts every evaluation (also when fun is None) (see C05 R5.2)")
+    from . import c05
+    c05.r52(ctx, Renamed(rep, to="R7.10"))
 
 
 def enum_members(ctx):
